@@ -71,7 +71,8 @@ def runHeader (line : String) : Option String :=
     pure (hxs (gs.map fun g => renderHeader [g]) ++ "=" ++ toString (hostsOf gs).length)
   | _ => none
 
-/-- `o FIXD0 FLAGS D DIRSTATE`: the option block (`Dshbak/Options.lean` `plan`).  FLAGS = letters of c h f or
+/-- `o FORM FLAGS D DIRSTATE`: the option block (`Dshbak/Options.lean` `plan`); FORM = `d` (`defined $opt_d`: the
+script since /repo 8474bb4) or `t` (the truth test of the script before it, sent only when the probe finds it).  FLAGS = letters of c h f or
 `-`, D = HEX(argument of -d) or `~` (no -d; `-` = the empty string), DIRSTATE = dir | missing | notdir.
 `f HEX(tag),...`: `fileNameOK` of every tag, one digit each. -/
 def runOpt (line : String) : Option String :=
@@ -81,7 +82,7 @@ def runOpt (line : String) : Option String :=
     let st : DirState ← match ds with
       | "dir" => some .dir | "missing" => some .missing | "notdir" => some .notDir | _ => none
     let o : Opts := { c := flags.contains 'c', h := flags.contains 'h', f := flags.contains 'f', d := dv }
-    pure (match plan (fix = "1") o st with
+    pure (match plan (fix = "t") o st with
       | .usage => "usage" | .fatal => "fatal" | .report => "report" | .coalesced => "coalesced"
       | .perFile false => "perfile0" | .perFile true => "perfile1")
   | ["f", tags] => do
